@@ -389,6 +389,75 @@ def drive_predicates(rec, rng, root):
         pass
 
 
+def after_rewrites_inside_terms(rec, rng):
+    """the predicates are functions of the expression as it is NOW: asked, then the tree is rewritten in place
+    below a term's top node (a product x * x^2 becomes x^(1 + 2), then x^3: the term's top node stays), then
+    asked again of the same node objects -- the answers are those for a clone of the tree and for a fresh parse
+    of its text"""
+    import mathy_core.util as U
+    import mathy_core.rules as R
+    from mathy_core import expressions as E
+
+    vm, ca = R.VariableMultiplyRule(), R.ConstantsSimplifyRule()
+    v = rng.choice("xyzab")
+    k = rng.choice([2, 3, 4])
+    c1, c2 = rng.choice(["4", "2", "", "0.5", "-3"]), rng.choice(["3", "7", "", "2.5"])
+    inner = f"({v} * {v}^{k - 1})" if k > 2 else f"({v} * {v})"
+    wrap = rng.choice(["{a}{p} + {b}{q}", "{a} * {p} + {b}{q}", "-{p} + {b}{q}", "{b}{q} + {a}{p} + w", "({a}{p} + 1) + {b}{q}", "{b}{q} - {a}{p}"])
+    text = wrap.format(a=c1 or "2", b=c2, p=inner, q=f"{v}^{k}")
+    try:
+        root = D.parse(text)
+    except Exception:
+        return
+    if S.kind(root) == "Equal":
+        return
+
+    def answers(t):
+        out = []
+        try:
+            out.append(("has_like_terms", bool(U.has_like_terms(t))))
+        except Exception as e:
+            out.append(("has_like_terms", type(e).__name__))
+        ns = S.nodes_preorder(t)
+        tops = [n for n in ns if isinstance(n.parent, (E.AddExpression, E.SubtractExpression))][:6]
+        for a_ in tops:
+            for b_ in tops:
+                try:
+                    out.append(bool(U.terms_are_like(a_, b_)))
+                except Exception as e:
+                    out.append(type(e).__name__)
+        return out
+
+    answers(root)                                   # asked once before anything is rewritten
+    for step in range(2):
+        if step == 0:
+            cands = [n for n in S.nodes_preorder(root) if isinstance(n, E.MultiplyExpression) and isinstance(n.left, E.VariableExpression)
+                     and isinstance(n.right, (E.VariableExpression, E.PowerExpression)) and vm.can_apply_to(n)]
+            rule = vm
+        else:
+            cands = [n for n in S.nodes_preorder(root) if isinstance(n, E.AddExpression) and isinstance(n.left, E.ConstantExpression) and isinstance(n.right, E.ConstantExpression)
+                     and isinstance(n.parent, E.PowerExpression) and n.parent.right is n and ca.can_apply_to(n)]
+            rule = ca
+        if not cands:
+            return
+        try:
+            root = S.root_of(rule.apply_to(cands[0]).result)
+        except Exception:
+            return
+        rec.ev()
+        rec.arm("like:asked-again-after-a-rewrite-inside-a-term")
+        live = answers(root)
+        try:
+            copy, fresh = answers(root.clone()), answers(D.parse(S.text_of(root)))
+        except Exception:
+            return
+        if live != copy or (live[0] != fresh[0]):
+            rec.violation("C16", "like-terms/depends-on-tree-history", "a term predicate answers differently for a tree than for its clone / its re-parsed text",
+                          {"start": text, "summary": f"'{text}' asked, rewritten in place to '{S.text_of(root)}', asked again: has_like_terms = {live[0][1]} for the rewritten tree, "
+                           f"{copy[0][1]} for its clone, {fresh[0][1]} for a fresh parse of its text" + ("" if live[1:] == copy[1:] else "; terms_are_like differs between the tree and its clone")})
+            return
+
+
 def deep_sums(rec):
     """sums of ~1500 pairwise unlike addends with or without one like pair (near the top, in the middle, at the
     bottom), grouped as a right-nested chain, a left-nested chain and a balanced tree, asked under the
@@ -521,6 +590,7 @@ def run(rec, cfg):
             rec.truncated = True
             break
         check_like_terms(rec, rng)
+        after_rewrites_inside_terms(rec, rng)
         c = rng.random()
         text = rng.choice(corp) if c < 0.25 else WE.random_expr(rng) if c < 0.7 else WT.gen_text(rng, max_depth=3, equations=0)
         try:
@@ -539,7 +609,10 @@ def run(rec, cfg):
 def replay(rec, cfg, w):
     attach_util()
     rng = cfg.rng("replay")
-    if w.get("deep_sums"):
+    if "start" in w:
+        for i in range(400):
+            after_rewrites_inside_terms(rec, cfg.rng(f"replay{i}"))
+    elif w.get("deep_sums"):
         deep_sums(rec)
     elif "n" in w:
         check_factor(rec, w["n"])
